@@ -235,7 +235,7 @@ SHORT_READ_SAFE = {
 
 SHORT_READ_PRECHECKED = {
     # read key -> the refusal (substring of its test) that bounds the read beforehand
-    "btclib.psbt.psbt_utils.parse_taproot_bip32:stream.read(LEAF_HASH_SIZE)": "> available",
+    "btclib.psbt.psbt_utils.parse_taproot_bip32:read(LEAF_HASH_SIZE)": "> available",
 }
 
 
@@ -280,7 +280,7 @@ def rule_short_read(ctx: Ctx, rep: Report) -> None:
             if isinstance(par, ast.Call) and call_name(par) in CHECKED_READS and c in par.args:
                 rep.ob(rule, key, True, fi.where(c), f"handed to a checked parser: {norm(par.func)}")
                 continue
-            pre = SHORT_READ_PRECHECKED.get(key)
+            pre = SHORT_READ_PRECHECKED.get(f"{fi.qualname}:read({norm(c.args[0])})")  # keyed without the stream's name
             if pre is not None:
                 ok = any(pol and pre in norm(t) for t, pol, _ in ctx.refusals(fi))
                 rep.ob(rule, key, ok, fi.where(c), f"bounded beforehand by a refusal on `{pre}`" if ok else f"the refusal on `{pre}` that bounded this read is gone")
